@@ -3,14 +3,249 @@ Forward direction of the codec proofs: encoder = RFC wire image, exact length,
 limit behaviour, decode ∘ encode, completeness of the decoder on RFC images.
 Used by Props/C01, C03, C04.
 -/
-import CoapLite.Model.CodecAbs
+import CoapLite.Lemmas.CodecBasic
 
 namespace CoapLite
 namespace Codec
 open Spec
 
+/-! ### the option map the decoder accumulates -/
+
+/-- fold of `add` over a flat option list: what `decOpts` builds -/
+def accOpts (acc : OptMap) (os : List (Nat × Bytes)) : OptMap :=
+  os.foldl (fun a o => a.add o.1 o.2) acc
+
+theorem accOpts_nil (acc : OptMap) : accOpts acc [] = acc := rfl
+
+theorem accOpts_cons (acc : OptMap) (n : Nat) (v : Bytes) (os : List (Nat × Bytes)) :
+    accOpts acc ((n, v) :: os) = accOpts (acc.add n v) os := rfl
+
+theorem accOpts_spec (os : List (Nat × Bytes)) (prev : Nat) (acc : OptMap)
+    (hs : acc.Sorted) (hle : ∀ b ∈ acc, b.1 ≤ prev)
+    (hp : (prev :: os.map (·.1)).Pairwise (· ≤ ·)) :
+    (accOpts acc os).flatten = acc.flatten ++ os ∧ (accOpts acc os).Sorted := by
+  induction os generalizing prev acc with
+  | nil => simp [accOpts_nil, hs]
+  | cons o os ih =>
+    obtain ⟨n, v⟩ := o
+    simp only [List.map_cons, List.pairwise_cons] at hp
+    have hpn : prev ≤ n := hp.1 n List.mem_cons_self
+    have hle' : ∀ b ∈ acc, b.1 ≤ n := fun b hb => Nat.le_trans (hle b hb) hpn
+    have hs' := OptMap.sorted_add hs n v
+    have hle2 : ∀ b ∈ acc.add n v, b.1 ≤ n := by
+      intro b hb
+      rcases OptMap.mem_add_key hb with e | ⟨b', hb', e⟩
+      · omega
+      · rw [← e]; exact hle' b' hb'
+    have hp' : (n :: os.map (·.1)).Pairwise (· ≤ ·) := List.pairwise_cons.2 hp.2
+    obtain ⟨h1, h2⟩ := ih n (acc.add n v) hs' hle2 hp'
+    rw [accOpts_cons]
+    refine ⟨?_, h2⟩
+    rw [h1, OptMap.add_last hs n v hle']
+    simp
+
+theorem decOpts_wire (os : List (Nat × Bytes)) (prev : Nat) (acc : OptMap) (tail pl : Bytes)
+    (hp : (prev :: os.map (·.1)).Pairwise (· ≤ ·))
+    (hb : ∀ o ∈ os, o.1 ≤ 65535 ∧ o.2.length ≤ 65804)
+    (ht : (tail = [] ∧ pl = []) ∨ tail = 0xFF :: pl) :
+    decOpts prev acc (wireOpts prev os ++ tail) = .ok (accOpts acc os, pl) := by
+  induction os generalizing prev acc with
+  | nil =>
+    rcases ht with ⟨rfl, rfl⟩ | rfl
+    · simp [wireOpts, decOpts, accOpts_nil]
+    · simp only [wireOpts, List.nil_append, accOpts_nil]
+      rw [decOpts]
+      simp
+  | cons o os ih =>
+    obtain ⟨n, v⟩ := o
+    simp only [List.map_cons, List.pairwise_cons] at hp
+    have hpn : prev ≤ n := hp.1 n List.mem_cons_self
+    have hp' : (n :: os.map (·.1)).Pairwise (· ≤ ·) := List.pairwise_cons.2 hp.2
+    have hnv := hb (n, v) List.mem_cons_self
+    have hb' : ∀ o ∈ os, o.1 ≤ 65535 ∧ o.2.length ≤ 65804 := fun o ho => hb o (List.mem_cons_of_mem _ ho)
+    have step := decOpts_step prev n acc v (wireOpts n os ++ tail) hpn hnv.1 hnv.2
+    rw [wireOpts_cons, accOpts_cons, ← ih n (acc.add n v) hp' hb', ← step]
+    simp only [List.cons_append, List.append_assoc]
+
+/-! ### the decoder on a framed RFC image -/
+
+theorem dec_frame (b0 b1 b2 b3 : UInt8) (tok : Bytes) (os : List (Nat × Bytes)) (pl : Bytes)
+    (htk : (0x0F &&& b0).toNat = tok.length) (ht : tok.length ≤ 8)
+    (hp : (os.map (·.1)).Pairwise (· ≤ ·))
+    (hb : ∀ o ∈ os, o.1 ≤ 65535 ∧ o.2.length ≤ 65804) :
+    dec (b0 :: b1 :: b2 :: b3 :: (tok ++ wireOpts 0 os ++ (if pl.isEmpty then [] else 0xFF :: pl))) =
+      .ok { header := { vtt := b0, code := MessageClass.ofU8 b1.toNat, mid := b2.toNat * 256 + b3.toNat },
+            token := tok, options := accOpts [] os, payload := pl } := by
+  have hp0 : (0 :: os.map (·.1)).Pairwise (· ≤ ·) :=
+    List.pairwise_cons.2 ⟨fun _ _ => Nat.zero_le _, hp⟩
+  have htail : ((if pl.isEmpty then [] else 0xFF :: pl) = [] ∧ pl = []) ∨
+      (if pl.isEmpty then [] else 0xFF :: pl) = 0xFF :: pl := by
+    cases pl <;> simp
+  have hd := decOpts_wire os 0 [] _ pl hp0 hb htail
+  unfold dec
+  simp only [htk]
+  have h1 : ¬ tok.length > 8 := by omega
+  have h2 : ¬ tok.length > (tok ++ wireOpts 0 os ++ (if pl.isEmpty then [] else 0xFF :: pl)).length := by
+    simp only [List.length_append]; omega
+  rw [if_neg h1, if_neg h2]
+  have h3 : (tok ++ wireOpts 0 os ++ (if pl.isEmpty then [] else 0xFF :: pl)).drop tok.length =
+      wireOpts 0 os ++ (if pl.isEmpty then [] else 0xFF :: pl) := by
+    rw [List.append_assoc, List.drop_left]
+  have h4 : (tok ++ wireOpts 0 os ++ (if pl.isEmpty then [] else 0xFF :: pl)).take tok.length = tok := by
+    rw [List.append_assoc, List.take_left]
+  rw [h3, h4, hd]
+
+/-! ### encoder, closed form -/
+
+theorem sent_payload_ne {p : Packet} (h : sent p = true) : p.payload ≠ [] := by
+  simp [sent] at h; exact h.2
+
+theorem payload_tail (p : Packet) :
+    (if (toMsg p).payload.isEmpty then [] else 0xFF :: (toMsg p).payload) =
+      (if sent p then 0xFF :: p.payload else []) := by
+  unfold toMsg
+  by_cases h : sent p = true
+  · have := sent_payload_ne h
+    simp [h, this]
+  · simp [h]
+
+theorem payload_len (p : Packet) :
+    (if (toMsg p).payload.isEmpty then 0 else 1 + (toMsg p).payload.length) =
+      (if sent p then 1 + p.payload.length else 0) := by
+  unfold toMsg
+  by_cases h : sent p = true
+  · have := sent_payload_ne h
+    simp [h, this]
+  · simp [h]
+
+/-- closed form of `enc` when every value fits -/
+theorem enc_fit (p : Packet) (lim : Option Nat) (h : AllFit p) :
+    enc p lim =
+      match lim with
+      | some l =>
+        if wireLen (toMsg p) > l then .err .invalidPacketLength
+        else .ok (headerBytes p.header ++ p.token ++ wireOpts 0 p.options.flatten ++
+          (if sent p then 0xFF :: p.payload else []))
+      | none => .ok (headerBytes p.header ++ p.token ++ wireOpts 0 p.options.flatten ++
+          (if sent p then 0xFF :: p.payload else [])) := by
+  have hl : wireLen (toMsg p) = 4 + p.token.length + (wireOpts 0 p.options.flatten).length +
+      (if sent p then 1 + p.payload.length else 0) := by
+    rw [wireLen, payload_len, wireOpts_length]; rfl
+  unfold enc
+  rw [encOpts_ok 0 p.options h]
+  cases lim <;> simp only [hl]
+
+theorem enc_unfit (p : Packet) (lim : Option Nat) (h : ¬ AllFit p) :
+    enc p lim = .err .invalidOptionLength := by
+  unfold enc
+  rw [encOpts_err 0 p.options h]
+
+theorem wire_toMsg (p : Packet) (htk : (0x0F &&& p.header.vtt).toNat = p.token.length)  :
+    wire (toMsg p) = headerBytes p.header ++ p.token ++ wireOpts 0 p.options.flatten ++
+      (if sent p then 0xFF :: p.payload else []) := by
+  rw [wire, payload_tail]
+  have h0 : UInt8.ofNat ((toMsg p).ver <<< 6 ||| (toMsg p).typ <<< 4 ||| (toMsg p).token.length) = p.header.vtt := by
+    show UInt8.ofNat ((p.header.vtt.toNat / 64) <<< 6 ||| (p.header.vtt.toNat / 16 % 4) <<< 4 ||| p.token.length) = _
+    rw [← htk, and0F_toNat, vtt_recompose]
+  rw [h0, shr8, and_ff]
+  rfl
+
+theorem pktwf_fit {p : Packet} (h : PktWF p) : AllFit p :=
+  fun kv hkv => (h.2.2.2.2.2 kv hkv).2
+
 theorem enc_eq_wire (p : Packet) (h : PktWF p) : enc p none = .ok (wire (toMsg p)) := by
-  sorry
+  rw [enc_fit p none (pktwf_fit h), wire_toMsg p h.2.1]
+
+theorem empty_drops_payload (p : Packet) (h : PktWF p) (hc : p.header.code = .Empty) :
+    enc p none = .ok (wire { toMsg p with payload := [] }) ∧ (toMsg p).payload = [] := by
+  have hs : sent p = false := by simp [sent, hc]
+  have hp : (toMsg p).payload = [] := by simp [toMsg, hs]
+  refine ⟨?_, hp⟩
+  have : ({ toMsg p with payload := [] } : Msg) = toMsg p := by
+    rw [← hp]
+  rw [this]; exact enc_eq_wire p h
+
+theorem enc_length (p : Packet) (lim : Option Nat) (bs : Bytes) (h : enc p lim = .ok bs) :
+    bs.length = wireLen (toMsg p) := by
+  by_cases hf : AllFit p
+  · rw [enc_fit p lim hf] at h
+    have hl : wireLen (toMsg p) = 4 + p.token.length + (wireOpts 0 p.options.flatten).length +
+        (if sent p then 1 + p.payload.length else 0) := by
+      rw [wireLen, payload_len, wireOpts_length]; rfl
+    have hlen : (headerBytes p.header ++ p.token ++ wireOpts 0 p.options.flatten ++
+          (if sent p then 0xFF :: p.payload else [])).length = wireLen (toMsg p) := by
+      rw [hl]
+      by_cases hs : sent p = true <;> simp [hs, headerBytes] <;> omega
+    cases lim with
+    | none =>
+      simp only [Res.ok.injEq] at h
+      rw [← h, hlen]
+    | some l =>
+      simp only at h
+      split at h
+      · cases h
+      · simp only [Res.ok.injEq] at h
+        rw [← h, hlen]
+  · rw [enc_unfit p lim hf] at h; cases h
+
+theorem enc_limit (p : Packet) (L : Nat) (h : AllFit p) :
+    enc p (some L) =
+      if wireLen (toMsg p) ≤ L then enc p none else .err .invalidPacketLength := by
+  rw [enc_fit p (some L) h, enc_fit p none h]
+  simp only
+  by_cases hl : wireLen (toMsg p) ≤ L
+  · have : ¬ wireLen (toMsg p) > L := by omega
+    rw [if_neg this, if_pos hl]
+  · have : wireLen (toMsg p) > L := by omega
+    rw [if_pos this, if_neg hl]
+
+theorem enc_unlimited_ok (p : Packet) (h : AllFit p) : ∃ bs, enc p none = .ok bs := by
+  rw [enc_fit p none h]; exact ⟨_, rfl⟩
+
+theorem enc_refuses_long (p : Packet) (lim : Option Nat) (h : ¬ AllFit p) :
+    enc p lim = .err .invalidOptionLength := enc_unfit p lim h
+
+theorem enc_never_panics (p : Packet) (lim : Option Nat) : enc p lim ≠ .panic := by
+  by_cases hf : AllFit p
+  · rw [enc_fit p lim hf]
+    cases lim with
+    | none => simp
+    | some l => simp only; split <;> simp
+  · rw [enc_unfit p lim hf]; simp
+
+
+/-! ### decode ∘ encode, completeness -/
+
+theorem mem_flatten {m : OptMap} {o : Nat × Bytes} :
+    o ∈ m.flatten ↔ ∃ kv ∈ m, o.1 = kv.1 ∧ o.2 ∈ kv.2 := by
+  simp only [OptMap.flatten, List.mem_flatMap, List.mem_map]
+  constructor
+  · rintro ⟨kv, hkv, v, hv, rfl⟩
+    exact ⟨kv, hkv, rfl, hv⟩
+  · rintro ⟨kv, hkv, h1, h2⟩
+    exact ⟨kv, hkv, o.2, h2, by rw [← h1]⟩
+
+theorem flatten_keys_sorted {m : OptMap} (hs : m.Sorted) :
+    (m.flatten.map (·.1)).Pairwise (· ≤ ·) := by
+  induction m with
+  | nil => simp [OptMap.flatten_nil]
+  | cons a m ih =>
+    obtain ⟨k, vs⟩ := a
+    rw [OptMap.sorted_cons] at hs
+    rw [OptMap.flatten_cons, List.map_append, List.pairwise_append]
+    refine ⟨?_, ih hs.2, ?_⟩
+    · clear ih hs
+      induction vs with
+      | nil => simp
+      | cons v vs ihv => simp_all
+    · intro a ha b hb
+      simp only [List.map_map, List.mem_map] at ha hb
+      obtain ⟨v, _, rfl⟩ := ha
+      obtain ⟨o, ho, rfl⟩ := hb
+      obtain ⟨kv, hkv, e, _⟩ := mem_flatten.1 ho
+      have := hs.1 kv hkv
+      simp only [Function.comp] at *
+      omega
 
 theorem dec_enc (p : Packet) (h : PktWF p)
     (hc : MessageClass.toU8 p.header.code = 0 → p.payload = []) :
@@ -19,52 +254,74 @@ theorem dec_enc (p : Packet) (h : PktWF p)
       q.header.code = MessageClass.ofU8 (MessageClass.toU8 p.header.code) ∧
       q.token = p.token ∧ q.options.flatten = p.options.flatten ∧ q.options.Sorted ∧
       q.payload = p.payload := by
-  sorry
-
-theorem empty_drops_payload (p : Packet) (h : PktWF p) (hc : p.header.code = .Empty) :
-    enc p none = .ok (wire { toMsg p with payload := [] }) ∧ (toMsg p).payload = [] := by
-  sorry
-
-theorem addOption_comm (p : Packet) (n₁ n₂ : Nat) (v₁ v₂ : Bytes) (hne : n₁ ≠ n₂)
-    (hs : p.options.Sorted) :
-    (p.addOption n₁ v₁).addOption n₂ v₂ = (p.addOption n₂ v₂).addOption n₁ v₁ := by
-  sorry
-
-theorem mutators_keep_sorted (p : Packet) (hs : p.options.Sorted) (n : Nat) (v : Bytes) (vs : List Bytes) :
-    (p.addOption n v).options.Sorted ∧ (p.setOption n vs).options.Sorted ∧
-    (p.clearOption n).options.Sorted ∧ (p.clearAllOptions).options.Sorted := by
-  sorry
-
-theorem addOption_get (p : Packet) (hs : p.options.Sorted) (n m : Nat) (v : Bytes) :
-    (p.addOption n v).getOption m =
-      if m = n then some ((p.getOption n).getD [] ++ [v]) else p.getOption m := by
-  sorry
+  obtain ⟨htl, htk, hmid, hcode, hs, hb⟩ := h
+  have hfit : AllFit p := fun kv hkv => (hb kv hkv).2
+  have hsent : (if sent p then 0xFF :: p.payload else []) =
+      (if p.payload.isEmpty then [] else 0xFF :: p.payload) := by
+    by_cases hp : p.payload = []
+    · simp [sent, hp]
+    · have hne : p.header.code ≠ MessageClass.Empty := by
+        intro e; apply hp; apply hc; rw [e]; rfl
+      simp [sent, hp, hne]
+  have hbnd : ∀ o ∈ p.options.flatten, o.1 ≤ 65535 ∧ o.2.length ≤ 65804 := by
+    intro o ho
+    obtain ⟨kv, hkv, e1, e2⟩ := mem_flatten.1 ho
+    have := hb kv hkv
+    exact ⟨by rw [e1]; exact this.1, this.2 _ e2⟩
+  have hpw := flatten_keys_sorted hs
+  have hspec := accOpts_spec p.options.flatten 0 [] OptMap.sorted_nil (by simp)
+    (List.pairwise_cons.2 ⟨fun _ _ => Nat.zero_le _, hpw⟩)
+  have henc := enc_fit p none hfit
+  simp only [headerBytes, hsent, List.cons_append, List.nil_append] at henc
+  have hdec := dec_frame p.header.vtt (UInt8.ofNat (MessageClass.toU8 p.header.code))
+    (UInt8.ofNat (p.header.mid / 256)) (UInt8.ofNat (p.header.mid % 256))
+    p.token p.options.flatten p.payload htk htl hpw hbnd
+  refine ⟨_, _, henc, hdec, rfl, mid_bytes _ hmid, ?_, rfl, ?_, hspec.2, rfl⟩
+  · simp only [toNat_ofNat_lt hcode]
+  · simpa [OptMap.flatten_nil] using hspec.1
 
 theorem dec_complete (m : Msg) (h : m.WF) :
     ∃ q, dec (wire m) = .ok q ∧
       q.header.vtt.toNat = m.ver * 64 + m.typ * 16 + m.token.length ∧
       q.header.code = MessageClass.ofU8 m.code ∧ q.header.mid = m.mid ∧
       q.token = m.token ∧ q.options.flatten = m.opts ∧ q.payload = m.payload := by
-  sorry
+  obtain ⟨hv, ht, hcode, hmid, htl, hpw, hb⟩ := h
+  have hb0 : (UInt8.ofNat (m.ver <<< 6 ||| m.typ <<< 4 ||| m.token.length)).toNat =
+      m.ver * 64 + m.typ * 16 + m.token.length := by
+    rw [vtt_compose _ _ _ hv ht htl, toNat_ofNat_lt (by omega)]
+  have htk : ((0x0F : UInt8) &&& UInt8.ofNat (m.ver <<< 6 ||| m.typ <<< 4 ||| m.token.length)).toNat = m.token.length := by
+    rw [and0F_toNat, hb0]; omega
+  have hspec := accOpts_spec m.opts 0 [] OptMap.sorted_nil (by simp)
+    (List.pairwise_cons.2 ⟨fun _ _ => Nat.zero_le _, hpw⟩)
+  have hdec := dec_frame _ (UInt8.ofNat m.code) (UInt8.ofNat (m.mid >>> 8)) (UInt8.ofNat (m.mid &&& 0xFF))
+    m.token m.opts m.payload htk htl hpw hb
+  have hw : wire m = UInt8.ofNat (m.ver <<< 6 ||| m.typ <<< 4 ||| m.token.length) :: UInt8.ofNat m.code ::
+      UInt8.ofNat (m.mid >>> 8) :: UInt8.ofNat (m.mid &&& 0xFF) ::
+      (m.token ++ wireOpts 0 m.opts ++ (if m.payload.isEmpty then [] else 0xFF :: m.payload)) := by
+    simp only [wire, List.cons_append, List.nil_append]
+  rw [hw]
+  refine ⟨_, hdec, hb0, ?_, ?_, rfl, ?_, rfl⟩
+  · simp only [toNat_ofNat_lt hcode]
+  · simp only [shr8, and_ff]; exact mid_bytes _ hmid
+  · simpa [OptMap.flatten_nil] using hspec.1
 
-theorem enc_length (p : Packet) (lim : Option Nat) (bs : Bytes) (h : enc p lim = .ok bs) :
-    bs.length = wireLen (toMsg p) := by
-  sorry
+/-! ### option mutators -/
 
-theorem enc_limit (p : Packet) (L : Nat) (h : AllFit p) :
-    enc p (some L) =
-      if wireLen (toMsg p) ≤ L then enc p none else .err .invalidPacketLength := by
-  sorry
+theorem addOption_comm (p : Packet) (n₁ n₂ : Nat) (v₁ v₂ : Bytes) (hne : n₁ ≠ n₂)
+    (hs : p.options.Sorted) :
+    (p.addOption n₁ v₁).addOption n₂ v₂ = (p.addOption n₂ v₂).addOption n₁ v₁ := by
+  simp only [Packet.addOption, OptMap.add_comm hs n₁ n₂ v₁ v₂ hne]
 
-theorem enc_unlimited_ok (p : Packet) (h : AllFit p) : ∃ bs, enc p none = .ok bs := by
-  sorry
+theorem mutators_keep_sorted (p : Packet) (hs : p.options.Sorted) (n : Nat) (v : Bytes) (vs : List Bytes) :
+    (p.addOption n v).options.Sorted ∧ (p.setOption n vs).options.Sorted ∧
+    (p.clearOption n).options.Sorted ∧ (p.clearAllOptions).options.Sorted :=
+  ⟨OptMap.sorted_add hs n v, OptMap.sorted_insert hs n vs, OptMap.sorted_modify hs n _, OptMap.sorted_nil⟩
 
-theorem enc_refuses_long (p : Packet) (lim : Option Nat) (h : ¬ AllFit p) :
-    enc p lim = .err .invalidOptionLength := by
-  sorry
-
-theorem enc_never_panics (p : Packet) (lim : Option Nat) : enc p lim ≠ .panic := by
-  sorry
+theorem addOption_get (p : Packet) (hs : p.options.Sorted) (n m : Nat) (v : Bytes) :
+    (p.addOption n v).getOption m =
+      if m = n then some ((p.getOption n).getD [] ++ [v]) else p.getOption m := by
+  have _ := hs   -- (holds without sortedness: first-occurrence semantics)
+  simp only [Packet.addOption, Packet.getOption, OptMap.get_add]
 
 end Codec
 end CoapLite
